@@ -57,6 +57,7 @@ type Profile struct {
 	PrioMidRender  int  // % of priority changes issued while a frame renders
 	AddTick        int  // % of adds during which an option callback requests a frame
 	AddAfterCancel int  // % of cancelled programs that call Add right after the cancel
+	OutSlow        int  // % of buffer outputs whose Write takes 0.1-1.5 ms
 	StaticTexts    bool // one text per decorator
 	RepeatText     int  // weight of the macro "same text written in consecutive frames"
 	Faults         int  // percent of scenarios with one filler/extender fault
@@ -112,6 +113,9 @@ func genDecorSpec(t *rapid.T, prof *Profile, sync bool, side int) engine.DecorSp
 	d.Disabled = pct(t, prof.DisabledPct, "disabled")
 	d.Listener = pct(t, prof.Listeners, "listener")
 	d.Ewma = pct(t, prof.EwmaPct, "ewmadecor")
+	if !d.Listener && !d.Ewma && !d.Disabled {
+		d.ViaAny = pct(t, 12, "viaany")
+	}
 	return d
 }
 
@@ -242,6 +246,9 @@ func genSetup(t *rapid.T, prof *Profile) *engine.Scenario {
 		sc.Cfg.DelayNever = pct(t, prof.DelayNever, "delaynever")
 	}
 	sc.Cfg.Notifier = pct(t, prof.Notifier, "notifier")
+	if sc.Cfg.PtyRows == 0 && pct(t, prof.OutSlow, "outslow") {
+		sc.Cfg.OutSlowUs = rapid.IntRange(100, 1500).Draw(t, "outslowus")
+	}
 	sc.Cfg.UserWG = pct(t, prof.UserWG, "userwg")
 	if sc.Cfg.UserWG {
 		sc.Cfg.UserWGUntilDone = rapid.Bool().Draw(t, "userwguntildone")
@@ -412,6 +419,14 @@ func genSteps(t *rapid.T, prof *Profile, sc *engine.Scenario) []engine.Step {
 					steps = append(steps, engine.Step{Op: "add", Bar: nextAdd})
 					nextAdd++
 				}
+				// ...and Bar.Wait on bars the cancellation ends, followed at once by the getters
+				if prof.PostTermWait {
+					for i, g := range gb {
+						if g.added && sc.Bars[i].QueueAfter < 0 && rapid.Bool().Draw(t, "waitaftercancel") {
+							steps = append(steps, engine.Step{Op: "barwait", Bar: i}, engine.Step{Op: "get", Bar: i})
+						}
+					}
+				}
 			}
 			break
 		}
@@ -574,9 +589,14 @@ func genSteps(t *rapid.T, prof *Profile, sc *engine.Scenario) []engine.Step {
 				case 0:
 					steps = append(steps, engine.Step{Op: "abort", Bar: i, Flag: rapid.Bool().Draw(t, "ptdrop")})
 				case 1:
-					steps = append(steps, engine.Step{Op: "incr", Bar: i, N: rapid.Int64Range(0, 30).Draw(t, "ptincr")})
+					// (every flavour of increment: they do not share all of their code)
+					st := engine.Step{Op: "incr", Bar: i, N: rapid.Int64Range(0, 30).Draw(t, "ptincr"), Text: rapid.SampledFrom([]string{"", "by", "one", "ewma", "ewmaby", "ewmaone"}).Draw(t, "ptincrvariant")}
+					if st.Text == "one" || st.Text == "ewmaone" {
+						st.N = 1
+					}
+					steps = append(steps, st)
 				case 2:
-					steps = append(steps, engine.Step{Op: "setcur", Bar: i, N: g.m.Cur + rapid.Int64Range(0, 30).Draw(t, "ptset")})
+					steps = append(steps, engine.Step{Op: "setcur", Bar: i, N: g.m.Cur + rapid.Int64Range(0, 30).Draw(t, "ptset"), Text: rapid.SampledFrom([]string{"", "ewma"}).Draw(t, "ptsetvariant")})
 				case 3:
 					steps = append(steps, engine.Step{Op: "settotal", Bar: i, N: rapid.Int64Range(-1, 30).Draw(t, "pttot"), Flag: rapid.Bool().Draw(t, "ptcomplete")})
 				case 4:
